@@ -276,6 +276,9 @@ type Association struct {
 	myNextRSN        uint32
 	reconfigs        map[uint32]*chunkReconfig
 	reconfigRequests map[uint32]*paramOutgoingResetRequest
+	// highest peer reset request already performed (to recognize retransmissions)
+	lastPerformedPeerRSN    uint32
+	hasLastPerformedPeerRSN bool
 
 	// Non-RFC internal data
 	sourcePort              uint16
@@ -3655,6 +3658,18 @@ func (a *Association) handleReconfigParam(raw param) (*packet, error) {
 			// https://chromium.googlesource.com/external/webrtc/+/refs/heads/main/net/dcsctp/socket/stream_reset_handler.cc#271
 			return nil, fmt.Errorf("%w: %d", ErrTooManyReconfigRequests, len(a.reconfigRequests))
 		}
+		if a.hasLastPerformedPeerRSN && sna32LTE(par.reconfigRequestSequenceNumber, a.lastPerformedPeerRSN) {
+			// Retransmission of a request that has already been performed (its
+			// response was lost or is still in flight): answer it again, but do
+			// not reset the streams a second time - the identifiers may have
+			// been re-opened since (RFC 6525 sec 5.2.2).
+			return a.createPacket([]chunk{&chunkReconfig{
+				paramA: &paramReconfigResponse{
+					reconfigResponseSequenceNumber: par.reconfigRequestSequenceNumber,
+					result:                         reconfigResultSuccessPerformed,
+				},
+			}}), nil
+		}
 		a.reconfigRequests[par.reconfigRequestSequenceNumber] = par
 		resp := a.resetStreamsIfAny(par)
 		if resp != nil {
@@ -3727,6 +3742,10 @@ func (a *Association) resetStreamsIfAny(resetRequest *paramOutgoingResetRequest)
 			delete(a.streams, s.streamIdentifier)
 		}
 		delete(a.reconfigRequests, resetRequest.reconfigRequestSequenceNumber)
+		if !a.hasLastPerformedPeerRSN || sna32LT(a.lastPerformedPeerRSN, resetRequest.reconfigRequestSequenceNumber) {
+			a.lastPerformedPeerRSN = resetRequest.reconfigRequestSequenceNumber
+			a.hasLastPerformedPeerRSN = true
+		}
 	} else {
 		a.log.Debugf("[%s] resetStream(): senderLastTSN=%d > peerLastTSN=%d",
 			a.name, resetRequest.senderLastTSN, a.peerLastTSN())
